@@ -4,6 +4,7 @@ from vlib import *  # noqa
 
 # property -> (family cfg, rule prefixes judged by this check, ops that must have been exercised successfully)
 FAMILY = {
+    "C10": dict(fam="code", focus="faults", prefixes=("C10.",), need=[("CodeExchange", "tokens"), ("CodeExchange", "json"), ("Refresh", "json"), ("UserInfo", "claims")]),
     "C06": dict(fam="issue", prefixes=("C06.",), need=[("Callback", "tokens"), ("CodeExchange", "tokens"), ("Refresh", "tokens"), ("Poll", "tokens"),
                                                       ("ClientCreds", "tokens"), ("JWTBearer", "tokens"), ("TokenExchange", "tokens")]),
     "C03": dict(fam="authorize", prefixes=("C03.",), need=[("Authorize", "login"), ("Authorize", "redirErr"), ("Authorize", "page"), ("Authorize", "json"),
@@ -135,7 +136,7 @@ WALKS = dict(code=300, refresh=300, tokenuse=150, device=300, exchange=150, clie
 
 def op_part(pid, tier, seed, wd, spec):
     """Runs the OP-family pipeline for `spec` (an entry of FAMILY). Returns dict(new, known, coverage, assumptions)."""
-    res, viols = op_pipeline(pid, tier, seed, spec["fam"], wd)
+    res, viols = op_pipeline(pid, tier, seed, spec["fam"], wd, focus=spec.get("focus"))
     trace = read_ndjson(os.path.join(wd, "trace.ndjson"))
     mine = [v for v in viols if v["rule"].startswith(spec["prefixes"])]
     for v in mine:
@@ -225,4 +226,4 @@ def op_replay(pid, wd, path, spec):
     return 0
 
 
-CHECKS = {p: op_check for p in FAMILY if p not in ('C03',)}   # C03 is composed in tables.py
+CHECKS = {p: op_check for p in FAMILY if p not in ('C03', 'C10')}   # C03 is composed in tables.py
